@@ -44,6 +44,8 @@ Corpus == {
   <<"seq", <<1, 1>>, El("a", "FixedStr", 0, 1), El("b", "string", 1, 1), NoC, NONE, "unqualified", TRUE, 2, "complex">>,
   <<"choice", <<0, U>>, El("a", "FixedStr", 1, 1), El("b", "int", 1, 1), NoC, "urn:t", "qualified", FALSE, 1, "complex">>,
   <<"seq", <<1, 1>>, El("a", "DefInt", 0, 2), El("b", "Kid", 0, 1), NoC, "urn:t", "qualified", FALSE, 3, "complex">>,
+  <<"choice", <<0, U>>, El("a", "long", 1, 1), El("b", "int", 1, 1), NoC, "urn:t", "qualified", FALSE, 1, "complex">>,              \* int | long: two built-ins, one Python type
+  <<"choice", <<1, U>>, El("a", "long", 1, 1), El("b", "int", 1, 1), CD("choice", <<1, 1>>, 1), NONE, "unqualified", TRUE, 2, "complex">>,
   <<"seq", <<1, 1>>, El("a", "boolean", 1, 1), El("b", "int", 1, 1), NoC, "urn:t", "qualified", TRUE, 4, "simpleContent">> }
 InitCorpus == \E c \in Corpus, i \in 0..MaxDocIdx : parts = Append(c, i)
 
